@@ -518,8 +518,8 @@ func Judge(prog []gen.Stmt, real Real) Verdict {
 	var firstWhy string
 	var firstModel refmodel.Outcome
 	sawUnspec := ""
-	for bits := 0; bits < 32; bits++ {
-		fl := refmodel.Flags{LoopPerIter: bits&1 != 0, TrySeparate: bits&2 != 0, FinallyOnAbrupt: bits&4 != 0, DeferErrLast: bits&8 != 0, StrayControlNoop: bits&16 != 0}
+	for bits := 0; bits < 64; bits++ {
+		fl := refmodel.Flags{LoopPerIter: bits&1 != 0, TrySeparate: bits&2 != 0, FinallyOnAbrupt: bits&4 != 0, DeferErrLast: bits&8 != 0, StrayControlNoop: bits&16 != 0, ForInScalarSkips: bits&32 != 0}
 		m := refmodel.Run(prog, fl)
 		if m.Unspec != "" {
 			sawUnspec = m.Unspec
@@ -543,8 +543,8 @@ func Judge(prog []gen.Stmt, real Real) Verdict {
 		try, zps bool
 	}
 	for _, fs := range []fset{{"try-catches-control-signals", true, false}, {"zero-param-spread-ignores-operands", false, true}, {"try-catches-control-signals+zero-param-spread-ignores-operands", true, true}} {
-		for bits := 0; bits < 32; bits++ {
-			fl := refmodel.Flags{LoopPerIter: bits&1 != 0, TrySeparate: bits&2 != 0, FinallyOnAbrupt: bits&4 != 0, DeferErrLast: bits&8 != 0, StrayControlNoop: bits&16 != 0,
+		for bits := 0; bits < 64; bits++ {
+			fl := refmodel.Flags{LoopPerIter: bits&1 != 0, TrySeparate: bits&2 != 0, FinallyOnAbrupt: bits&4 != 0, DeferErrLast: bits&8 != 0, StrayControlNoop: bits&16 != 0, ForInScalarSkips: bits&32 != 0,
 				TryCatchesControl: fs.try, ZeroParamSpread: fs.zps}
 			m := refmodel.Run(prog, fl)
 			if !m.UsedFinding {
